@@ -154,7 +154,7 @@ def read_versions(path):
 
 
 def run(chk, replay=None):
-    coq = coq_build(["C32"], ["C32/Props.v"])
+    coq = coq_build(["C32"], ["C32/Props.v", "C32/PropsText.v"])
     chk.add_coq(coq)
     okw, outw, wild = wild_build()
     if not okw:
@@ -246,6 +246,33 @@ def run(chk, replay=None):
     if okm and len(mres) != len(items):
         chk.tie_break("model evaluation: wrong number of answers", {"items": len(items), "answers": len(mres)})
         mres = []
+
+    # ---- the same verdicts computed from the TEXT inside Coq (parser model + glob/fnmatch models + wild_match/gnu_match):
+    #      they must agree with the verdicts computed from the match bits this driver derived with Python's fnmatch
+    TXT_IMPORTS = IMPORTS + ("From WV Require Import C32.FromText.\n"
+                             "Definition enco (o : option verdict) : list N := match o with Some v => enc v | None => [9%N] end.\n"
+                             "Definition txt (text : list N) (names : list (list N)) := map (fun n => (enco (wild_version_of text n), enco (gnu_version_of text n))) names.\n")
+    titems = ["txt [" + "; ".join(str(b) for b in script_text(nodes).encode()) + "] [" + "; ".join("[" + "; ".join(str(b) for b in s_.encode()) + "]" for s_ in SYMS) + "]" for nodes in scripts]
+    per = (len(titems) + NCPU - 1) // NCPU or 1
+    tbodies = ["Eval vm_compute in [\n" + ";\n".join(titems[k * per:(k + 1) * per]) + "].\n" for k in range(NCPU) if titems[k * per:(k + 1) * per]]
+    tres, okt = [], True
+    for rc, out in coq_eval_sharded("c32txt", TXT_IMPORTS, tbodies, timeout=900):
+        if rc != 0:
+            chk.tie_break("text-level model evaluation failed (coqc)", out[-1500:])
+            okt = False
+            continue
+        tres += parse_coq_value(out)
+    stats["text_level"] = {"scripts": 0, "verdicts": 0, "mismatch": 0}
+    if okt and len(tres) == len(scripts) and len(mres) == len(items):
+        for si, (nodes, per_sym) in enumerate(zip(scripts, tres)):
+            stats["text_level"]["scripts"] += 1
+            for k_, (s_, (tw, tg)) in enumerate(zip(SYMS, per_sym)):
+                mw_, mg_, _c = mres[si * len(SYMS) + k_]
+                stats["text_level"]["verdicts"] += 1
+                if list(tw) != list(mw_) or list(tg) != list(mg_):
+                    stats["text_level"]["mismatch"] += 1
+                    chk.tie_break("C32.FromText: the verdict computed from the script text inside Coq differs from the one computed from the driver's match bits",
+                                  {"script": script_text(nodes), "symbol": s_, "from_text": [list(tw), list(tg)], "from_bits": [list(mw_), list(mg_)]})
 
     def show(v):
         return {0: f"V{v[1] + 1}" if len(v) > 1 else "?", 1: "LOCAL", 2: "GLOBAL"}[v[0]]
